@@ -97,6 +97,9 @@ MUTANTS = [
     ("rwg_sign_rule", "bempp_cl/api/space/maxwell_spaces.py", "1 if element_index == min(supported_neighbors) else -1", "1 if element_index == min(supported_neighbors) else 1", 0, ["C03", "C09"]),
     ("snc_evaluate_cross_order", "bempp_cl/api/space/maxwell_spaces.py", "result[0, :, :] = normal[1] * tmp[2, :, :] - normal[2] * tmp[1, :, :]", "result[0, :, :] = normal[2] * tmp[1, :, :] - normal[1] * tmp[2, :, :]", 0, ["C09"]),
     ("colour_map_first_dof_only", "bempp_cl/api/space/space.py", "            for dof in global_dofs:\n                for elem, _ in self.global2local[dof]:", "            for dof in global_dofs[:1]:\n                for elem, _ in self.global2local[dof]:", 0, ["C16"]),
+    ("rwg_alias_fixed_index", "bempp_cl/api/space/maxwell_spaces.py", "dofmap[local_index] = dofmap[first_nonzero]", "dofmap[local_index] = dofmap[0]", 0, ["C16"]),
+    ("sort_colour_ptr_before_advance", "bempp_cl/api/space/space.py", "            count += colors_length\n            indexptr[index + 1] = count\n", "            indexptr[index + 1] = count\n            count += colors_length\n", 0, ["C16"]),
+    ("sort_colour_wrong_members", "bempp_cl/api/space/space.py", "colors = _np.where(self.color_map == color)[0]", "colors = _np.where(self.color_map >= color)[0]", 0, ["C16"]),
     ("p1_alias_constant", "bempp_cl/api/space/scalar_spaces.py", "local2global_final[element_index, local_index] = max_dof", "local2global_final[element_index, local_index] = 0", 0, ["C16", "C09"]),
     # ---- algebra / solvers / io / state
     ("product_operand_order", "bempp_cl/api/assembly/boundary_operator.py", "return self._op1.weak_form() * self._op2.strong_form()", "return self._op2.weak_form() * self._op1.strong_form()", 0, ["C14"]),
@@ -131,6 +134,11 @@ EQUIVALENTS = [
     ("eq_duffy_factor_order", "bempp_cl/api/integration/duffy_galerkin.py", "points_test[1, index] = xsi * (1.0 - eta1 + eta12)", "points_test[1, index] = (1.0 + eta12 - eta1) * xsi", 0, ["C12", "C01"]),
     ("eq_cl_commute", KH, "    factor1[0] = M_INV_4PI * cos(kernel_parameters[0] * dist) / (dist * dist * dist);\n    factor1[1] = M_INV_4PI * sin(kernel_parameters[0] * dist) / (dist * dist * dist);\n\n    factor2[0] = -M_ONE;\n    factor2[1] = kernel_parameters[0] * dist;\n\n    if (kernel_parameters[1] != M_ZERO) {\n        factor1[0] *= exp(-kernel_parameters[1] * dist);\n        factor1[1] *= exp(-kernel_parameters[1] * dist);\n\n        factor2[0] += -kernel_parameters[1] * dist;\n    }\n\n    product[0]", "    factor1[0] = cos(dist * kernel_parameters[0]) * M_INV_4PI / (dist * dist * dist);\n    factor1[1] = M_INV_4PI * sin(kernel_parameters[0] * dist) / (dist * dist * dist);\n\n    factor2[0] = -M_ONE;\n    factor2[1] = kernel_parameters[0] * dist;\n\n    if (kernel_parameters[1] != M_ZERO) {\n        factor1[0] *= exp(-kernel_parameters[1] * dist);\n        factor1[1] *= exp(-kernel_parameters[1] * dist);\n\n        factor2[0] += -kernel_parameters[1] * dist;\n    }\n\n    product[0]", 0, ["C20"]),
     ("eq_p1_table_float_form", "bempp_cl/api/space/scalar_spaces.py", "                [1.0, 1 / 2, 1 / 3],\n                [0.0, 1 / 3, 1 / 2],", "                [1, 0.5, 1.0 / 3],\n                [0, 1.0 / 3, 0.5],", 0, ["C10"]),
+    ("eq_sort_colour_rewrite", "bempp_cl/api/space/space.py", "        for index, color in enumerate(_np.arange(ncolors, dtype=\"uint32\")):\n            colors = _np.where(self.color_map == color)[0]\n            colors_length = len(colors)\n            sorted_indices[count : count + colors_length] = colors\n            count += colors_length\n            indexptr[index + 1] = count\n",
+     "        for c in range(ncolors):\n            members = _np.flatnonzero(c == self.color_map)\n            sorted_indices[count : len(members) + count] = members\n            count += len(members)\n            indexptr[1 + c] = count\n", 0, ["C16"]),
+    ("eq_invert_rename", "bempp_cl/api/space/space.py", "    for elem_index in range(number_of_elements):\n        for local_index, dof in enumerate(local2global_map[elem_index]):\n            if local_multipliers[elem_index, local_index] != 0:\n                global2local_map[dof].append((elem_index, local_index))\n",
+     "    for e in range(len(local2global_map)):\n        row = local2global_map[e]\n        for k, d in enumerate(row):\n            if 0 != local_multipliers[e, k]:\n                global2local_map[d].append((e, k))\n", 0, ["C16", "C09"]),
+    ("eq_p1_alias_rename", "bempp_cl/api/space/scalar_spaces.py", "            max_dof = _np.max(local2global_final[element_index])\n            for local_index in range(3):\n                if local2global[element_index, local_index] == -1:\n                    local2global_final[element_index, local_index] = max_dof", "            for k in range(3):\n                if local2global[element_index, k] == -1:\n                    local2global_final[element_index, k] = local2global_final[element_index].max()", 0, ["C16", "C09"]),
     ("eq_refine_rename", "bempp_cl/api/grid/grid.py", "            vertex01 = self.element_edges[0, index] + self.number_of_vertices\n            vertex20 = self.element_edges[1, index] + self.number_of_vertices\n            vertex12 = self.element_edges[2, index] + self.number_of_vertices\n\n            new_elements[:, 4 * index] = [vertex0, vertex01, vertex20]\n\n            new_elements[:, 4 * index + 1] = [vertex01, vertex1, vertex12]\n\n            new_elements[:, 4 * index + 2] = [vertex12, vertex2, vertex20]\n\n            new_elements[:, 4 * index + 3] = [vertex01, vertex12, vertex20]\n",
      "            nv = self.number_of_vertices\n            m_a = nv + self.element_edges[0, index]\n            m_b = nv + self.element_edges[1, index]\n            m_c = nv + self.element_edges[2, index]\n            new_elements[:, 3 + 4 * index] = [m_a, m_c, m_b]\n            new_elements[:, 4 * index + 2] = [m_c, vertex2, m_b]\n            new_elements[:, 1 + index * 4] = [m_a, vertex1, m_c]\n            new_elements[:, index * 4] = [vertex0, m_a, m_b]\n", 0, ["C11", "C04"]),
     ("eq_union_rename", "bempp_cl/api/grid/grid.py", "        vertices[:, vertex_offset : vertex_offset + nvertices] = grid.vertices\n        if swapped_normals[index]:\n            current_elements = grid.elements[[0, 2, 1], :]\n        else:\n            current_elements = grid.elements\n        elements[:, element_offset : element_offset + nelements] = current_elements + vertex_offset\n        all_domain_indices[element_offset : element_offset + nelements] = domain_indices[index]\n        vertex_offset += nvertices\n        element_offset += nelements\n",
